@@ -11,6 +11,7 @@ import (
 	"github.com/ethereum/go-ethereum/common"
 
 	crosschaintypes "github.com/functionx/fx-core/v8/x/crosschain/types"
+	fxtypes "github.com/functionx/fx-core/v8/types"
 	erc20types "github.com/functionx/fx-core/v8/x/erc20/types"
 
 	"fxverif/c18/tok"
@@ -27,14 +28,24 @@ func (e *env) outgoingCallCases() []string {
 	S, _ := c.Ctx.CacheContext()
 	t := tok.AddToken(c, S, "eth", 6, true)
 	tok.RegisterAliases(c, S, t)
+	// a second and a third token, later in sorted base-denom order (the refund converts coin by coin in that order)
+	t2 := tok.AddToken(c, S, "eth", 7, true)
+	tok.RegisterAliases(c, S, t2)
+	t3 := tok.AddToken(c, S, "eth", 8, true)
+	tok.RegisterAliases(c, S, t3)
+	if !(t.Base < t2.Base && t2.Base < t3.Base) {
+		panic("token order")
+	}
 	U := lib.EthKey(c.Seed, "oc-user", 0)
 	c.EnsureAccount(S, U.Acc())
-	coins := sdk.NewCoins(sdk.NewCoin(t.Base, sdkmath.NewInt(1000)))
-	lib.Must(c.App.BankKeeper.MintCoins(S, "mint", coins))
-	lib.Must(c.App.BankKeeper.SendCoinsFromModuleToAccount(S, "mint", U.Acc(), coins))
-	lib.Must(c.App.BankKeeper.MintCoins(S, "eth", sdk.NewCoins(sdk.NewCoin(t.BridgeDenom, sdkmath.NewInt(1000)))))
-	_, err := c.App.Erc20Keeper.ConvertCoin(S, &erc20types.MsgConvertCoin{Coin: coins[0], Receiver: U.Hex().Hex(), Sender: U.Acc().String()})
-	lib.Must(err)
+	for _, tk := range []tok.Token{t, t2, t3} {
+		coins := sdk.NewCoins(sdk.NewCoin(tk.Base, sdkmath.NewInt(1000)))
+		lib.Must(c.App.BankKeeper.MintCoins(S, "mint", coins))
+		lib.Must(c.App.BankKeeper.SendCoinsFromModuleToAccount(S, "mint", U.Acc(), coins))
+		lib.Must(c.App.BankKeeper.MintCoins(S, "eth", sdk.NewCoins(sdk.NewCoin(tk.BridgeDenom, sdkmath.NewInt(1000)))))
+		_, err := c.App.Erc20Keeper.ConvertCoin(S, &erc20types.MsgConvertCoin{Coin: coins[0], Receiver: U.Hex().Hex(), Sender: U.Acc().String()})
+		lib.Must(err)
+	}
 	blocked := common.BytesToAddress(authtypes.NewModuleAddress(authtypes.FeeCollectorName))
 	const amount = 100
 
@@ -44,25 +55,58 @@ func (e *env) outgoingCallCases() []string {
 		refund  string // "self" | "blocked"
 		off     string // "" | "pair" | "erc20"
 		unknown bool   // the result claim names a nonce that does not exist
+		ntok    int    // tokens carried by the call (default 1)
 	}
 	scens := []scen{
-		{"result-success", 0, "self", "", false},
-		{"result-failure", 1, "self", "", false},
-		{"result-failure-pair-off", 1, "self", "pair", false},
-		{"result-failure-erc20-off", 1, "self", "erc20", false},
-		{"result-failure-blocked-refund", 1, "blocked", "", false},
-		{"result-failure-unknown-nonce", 1, "self", "", true},
-		{"timeout-at-ok-event", 2, "self", "", false},
-		{"timeout-at-failing-event", 3, "self", "", false},
-		{"timeout-at-failing-event-pair-off", 3, "self", "pair", false},
-		{"timeout-at-ok-event-erc20-off", 2, "self", "erc20", false},
-		{"timeout-at-failing-event-blocked-refund", 3, "blocked", "", false},
-		{"timeout-at-ok-event-blocked-refund", 2, "blocked", "", false},
+		{"result-success", 0, "self", "", false, 0},
+		{"result-failure", 1, "self", "", false, 0},
+		{"result-failure-pair-off", 1, "self", "pair", false, 0},
+		{"result-failure-erc20-off", 1, "self", "erc20", false, 0},
+		{"result-failure-blocked-refund", 1, "blocked", "", false, 0},
+		{"result-failure-unknown-nonce", 1, "self", "", true, 0},
+		{"timeout-at-ok-event", 2, "self", "", false, 0},
+		{"timeout-at-failing-event", 3, "self", "", false, 0},
+		{"timeout-at-failing-event-pair-off", 3, "self", "pair", false, 0},
+		{"timeout-at-ok-event-erc20-off", 2, "self", "erc20", false, 0},
+		{"timeout-at-failing-event-blocked-refund", 3, "blocked", "", false, 0},
+		{"timeout-at-ok-event-blocked-refund", 2, "blocked", "", false, 0},
+		// calls carrying several tokens: the "refund to evm" leg converts them one after the other on the caller's context.
+		// A conversion that fails at the 2nd / last coin must not leave the earlier coins converted (all or nothing)
+		{"result-failure-3tok", 1, "self", "", false, 3},
+		{"result-failure-2tok-second-pair-off", 1, "self", "pair2", false, 2},
+		{"result-failure-3tok-last-pair-off", 1, "self", "pair3", false, 3},
+		{"timeout-at-failing-event-3tok", 3, "self", "", false, 3},
+		{"timeout-at-failing-event-2tok-second-pair-off", 3, "self", "pair2", false, 2},
+		{"timeout-at-ok-event-3tok-last-pair-off", 2, "self", "pair3", false, 3},
 	}
 	countCalls := func(ctx sdk.Context) int64 {
 		n := int64(0)
 		k.IterateOutgoingBridgeCalls(ctx, func(*crosschaintypes.OutgoingBridgeCall) bool { n++; return false })
 		return n
+	}
+	// the refund of one outgoing call, as two steps built from the keeper's own primitives: the base coins go to the refund address
+	// (the refund in its from-msg form), then the "refund to evm" conversion of ALL coins — all or nothing: a conversion
+	// that fails is a failed step and leaves none of its writes
+	designatedRefund := func(ctx sdk.Context, oc *crosschaintypes.OutgoingBridgeCall) {
+		fromMsg := k.HasBridgeCallFromMsg(ctx, oc.Nonce)
+		k.SetBridgeCallFromMsg(ctx, oc.Nonce)
+		coins := k.HandleOutgoingBridgeCallRefund(ctx, oc)
+		if fromMsg {
+			return
+		}
+		k.DeleteBridgeCallFromMsg(ctx, oc.Nonce)
+		acc := crosschaintypes.ExternalAddrToAccAddr("eth", oc.GetRefund())
+		_ = tryOn(ctx, func(ctx sdk.Context) error {
+			for _, coin := range coins {
+				if coin.Denom == fxtypes.DefaultDenom {
+					continue
+				}
+				if _, err := c.App.Erc20Keeper.ConvertCoin(ctx, &erc20types.MsgConvertCoin{Coin: coin, Receiver: common.BytesToAddress(acc).String(), Sender: acc.String()}); err != nil {
+					return err
+				}
+			}
+			return nil
+		})
 	}
 	var out []string
 	for _, sc := range scens {
@@ -71,9 +115,18 @@ func (e *env) outgoingCallCases() []string {
 		if sc.refund == "blocked" {
 			refund = blocked
 		}
-		input, err := crosschaintypes.GetABI().Pack("bridgeCall", "eth", refund, []common.Address{t.Erc20}, []*big.Int{big.NewInt(amount)}, common.HexToAddress("0x01"), []byte{}, big.NewInt(0), []byte{})
-		lib.Must(err)
+		if sc.ntok == 0 {
+			sc.ntok = 1
+		}
+		carried := []tok.Token{t, t2, t3}[:sc.ntok]
+		var erc20s []common.Address
+		var amounts []*big.Int
+		for _, tk := range carried {
+			erc20s, amounts = append(erc20s, tk.Erc20), append(amounts, big.NewInt(amount))
+		}
 		pre := lib.CrosschainPrecompile
+		input, err := crosschaintypes.GetABI().Pack("bridgeCall", "eth", refund, erc20s, amounts, common.HexToAddress("0x01"), []byte{}, big.NewInt(0), []byte{})
+		lib.Must(err)
 		if res := c.EvmCall(B, U.Hex(), &pre, nil, 3_000_000, input); res.Failed || res.Err != nil {
 			panic(fmt.Sprintf("bridgeCall refused: %v %v", res.VmError, res.Err))
 		}
@@ -82,6 +135,10 @@ func (e *env) outgoingCallCases() []string {
 		switch sc.off {
 		case "pair":
 			tok.SetEnabled(c, B, t, false)
+		case "pair2":
+			tok.SetEnabled(c, B, t2, false)
+		case "pair3":
+			tok.SetEnabled(c, B, t3, false)
 		case "erc20":
 			p := c.App.Erc20Keeper.GetParams(B)
 			p.EnableErc20 = false
@@ -91,6 +148,36 @@ func (e *env) outgoingCallCases() []string {
 		payable := sc.refund == "self" && sc.off == ""
 		refundErc := func(ctx sdk.Context) *big.Int { return tok.BalanceOf(c, ctx, t.Erc20, refund) }
 		erc0 := refundErc(B)
+		// independent of any designated state: the refund of ONE call arrives in one form — every token as ERC-20 or every token as
+		// base coin, never some of each
+		holdings := func(ctx sdk.Context) (erc, bank []*big.Int) {
+			for _, tk := range carried {
+				erc = append(erc, tok.BalanceOf(c, ctx, tk.Erc20, refund))
+				bank = append(bank, tok.Bank(c, ctx, refund.Bytes(), tk.Base).BigInt())
+			}
+			return
+		}
+		ercH0, bankH0 := holdings(B)
+		oneForm := func(ctx sdk.Context) {
+			ercH, bankH := holdings(ctx)
+			asErc, asBank := 0, 0
+			var detail []string
+			for i := range carried {
+				de, db := new(big.Int).Sub(ercH[i], ercH0[i]), new(big.Int).Sub(bankH[i], bankH0[i])
+				if de.Sign() > 0 {
+					asErc++
+				}
+				if db.Sign() > 0 {
+					asBank++
+				}
+				detail = append(detail, fmt.Sprintf("token %d: ERC-20 %+d, base coin %+d", i+1, de, db))
+			}
+			if asErc > 0 && asBank > 0 {
+				e.failSig(lib.Failure{Kind: "monitor", Sig: "C18:outcall:" + sc.name + ":refund-half-converted",
+					What:   "the refund of one outgoing bridge call ended partly as ERC-20 and partly as base coins: a conversion that failed half-way was tolerated and its earlier writes kept",
+					Replay: map[string]interface{}{"scenario": sc.name, "refund_address": refund.Hex(), "switched_off": sc.off, "holdings": detail}})
+			}
+		}
 		cls := int64(0)
 		var preDump, post map[string][]string
 
@@ -112,12 +199,13 @@ func (e *env) outgoingCallCases() []string {
 						Replay: map[string]interface{}{"scenario": sc.name, "diff": d}})
 				}
 			} else {
+				oneForm(B1)
 				// designated: claim consumed, (refund on failure,) record removed — with the keeper's own primitives
 				B2, _ := B.CacheContext()
 				k.DeletePendingExecuteClaim(B2, ev)
 				k.CreateBridgeAccount(B2, claim.TxOrigin)
 				if sc.kind == 1 {
-					k.HandleOutgoingBridgeCallRefund(B2, oc)
+					designatedRefund(B2, oc)
 				}
 				k.DeleteOutgoingBridgeCallRecord(B2, oc.Nonce)
 				if d := lib.DiffDumps(c.DumpAll(B2), post); len(d) > 0 {
@@ -156,6 +244,7 @@ func (e *env) outgoingCallCases() []string {
 					Replay: map[string]interface{}{"scenario": sc.name, "refund_address": refund.Hex(), "switched_off": sc.off, "panic": trunc(verr.Error(), 200),
 						"last_observed_event_nonce": k.GetLastObservedEventNonce(B1), "outgoing_calls": countCalls(B1), "state_changed": len(lib.DiffDumps(preDump, post)) > 0}})
 			} else {
+				oneForm(B1)
 				if sc.kind == 3 {
 					cls = 1
 					B2, _ := B.CacheContext()
@@ -167,7 +256,7 @@ func (e *env) outgoingCallCases() []string {
 					k.SetAttestation(B2, ev, claim.ClaimHash(), att)
 					// the call is refunded and removed — if its refund can be paid; otherwise it simply stays
 					_ = tryOn(B2, func(ctx sdk.Context) error {
-						k.HandleOutgoingBridgeCallRefund(ctx, oc)
+						designatedRefund(ctx, oc)
 						k.DeleteOutgoingBridgeCallRecord(ctx, oc.Nonce)
 						return nil
 					})
